@@ -127,6 +127,7 @@ func cmdVerify(args []string) {
 	verbose := fs.Bool("v", false, "verbose")
 	keep := fs.String("keep", "", "directory for failed queries")
 	all := fs.Bool("all", false, "wait for all solvers")
+	bound := fs.Int("bound", 0, "bounded stand-in: set the loop contracts aside and unroll up to this many symbolic iterations")
 	fs.Parse(args)
 	rels := strings.Split(*pkgs, ",")
 	t0 := time.Now()
@@ -165,7 +166,12 @@ func cmdVerify(args []string) {
 			}
 		}
 		t1 := time.Now()
-		rep := ld.eng.verifyFunc(fn, fc)
+		var rep *FuncReport
+		if *bound > 0 {
+			rep = ld.eng.verifyFuncBounded(fn, fc, *bound)
+		} else {
+			rep = ld.eng.verifyFunc(fn, fc)
+		}
 		fmt.Printf("== %s: %d instrs, %d paths (%d completed), %d obligations, %.2fs\n", rep.Name, rep.Instrs, rep.Paths, rep.Completed, len(rep.Obligations), time.Since(t1).Seconds())
 		for _, u := range rep.Unsupported {
 			fmt.Println("   UNSUPPORTED:", u)
